@@ -222,3 +222,50 @@ pub fn sha256_verify_memo_stub(data: &[u8], key: &[u8], expected: &[u8]) -> Resu
     }
     if eq { Ok(()) } else { Err(StunParseError::IntegrityCheckFailed) }
 }
+
+// ---------------------------------------------------------------------------------------------
+// Recorder stubs for the two response constructors of the attribute-type policing
+// (`Message::unknown_attributes`, `Message::bad_request`).  The policing *verdict*
+// (`check_attribute_types`) is the real code; the constructors record their arguments and call the
+// real `Message::builder_error` (so the documented panic of builder_error for a non-request is
+// still reached) but do not add the SOFTWARE / ERROR-CODE / UNKNOWN-ATTRIBUTES attributes: that
+// half (3.3 M symex steps) is decided on its own in c16_response_*_parses_back.
+
+pub struct PoliceRec {
+    pub ua_calls: usize,
+    pub ua_n: usize,
+    pub ua: [u16; 4],
+    pub br_calls: usize,
+}
+pub static mut POLICE: PoliceRec = PoliceRec { ua_calls: 0, ua_n: 0, ua: [0; 4], br_calls: 0 };
+
+pub fn unknown_attributes_stub<'a, 'b>(
+    src: &stun_types::message::Message,
+    attributes: &[stun_types::attribute::AttributeType],
+) -> stun_types::message::MessageBuilder<'b>
+where
+    'a: 'a,
+    'b: 'b,
+{
+    unsafe {
+        POLICE.ua_calls += 1;
+        POLICE.ua_n = attributes.len();
+        let mut i = 0;
+        while i < attributes.len() && i < 4 {
+            POLICE.ua[i] = attributes[i].value();
+            i += 1;
+        }
+    }
+    stun_types::message::Message::builder_error(src)
+}
+
+pub fn bad_request_stub<'a, 'b>(src: &'a stun_types::message::Message) -> stun_types::message::MessageBuilder<'b>
+where
+    'a: 'a,
+    'b: 'b,
+{
+    unsafe {
+        POLICE.br_calls += 1;
+    }
+    stun_types::message::Message::builder_error(src)
+}
